@@ -84,12 +84,6 @@ def sj_chars(b):
     return out
 
 
-def be_order_safe(key):
-    """the model orders big-endian label buckets by ENCODED bytes, the library by String (code points); the two orders
-    agree on ASCII, half-width katakana, hiragana and katakana (Model/BinFormat.v, a decision of the bin-archive core)"""
-    return all(len(c) == 1 or c[0] in (0x82, 0x83) for c in sj_chars(key))
-
-
 def msg_tok(fmt, m):
     return L(m) if fmt == "U" else B(m)
 
@@ -518,14 +512,6 @@ class C06(PropertyCheck):
             return True          # library-only stream (A-codec); the model works on encoded strings
         if kind in ("txtf", "txta"):
             return txtfile.agree_text(case.line.split()[1], impl_out, model_out)
-        if kind == "txt" and impl_out != model_out:
-            fmt, endian, title, entries = parse_case(case.line)
-            if endian == "B" and not all(be_order_safe(k) for (k, _) in entries) and impl_out.startswith("ser=ok:") and model_out.startswith("ser=ok:"):
-                # label-table order of names outside the order-agreeing domain: compare everything but that order
-                (si, pi), (sm, pm) = (x[len("ser=ok:"):].split(" | parse=", 1) for x in (impl_out, model_out))
-                bi, bm = unB(si), unB(sm)
-                dsz = struct.unpack(">I", bi[4:8])[0]
-                return pi == pm and len(bi) == len(bm) and bi[:0x20 + dsz] == bm[:0x20 + dsz]
         return impl_out == model_out
 
     def nontrivial(self, case, impl_out):
